@@ -257,7 +257,12 @@ func runPool(c *mc.Ctx, r *mc.Result, name string, p *hist.Pool, maxLive, permMa
 	r.Transitions += g.Transitions
 	multi := 0
 	for _, l := range g.ByModel {
-		if len(l) > 1 {
+		// distinct tree dumps (a state and its after-managed-commit twin share one)
+		shapes := map[string]bool{}
+		for _, i := range l {
+			shapes[g.States[i].Shape] = true
+		}
+		if len(shapes) > 1 {
 			multi++
 		}
 	}
@@ -498,7 +503,7 @@ func run(c *mc.Ctx, r *mc.Result) {
 	add(func(r *mc.Result) { runFanOrders(c, r) })
 	results := make([]*mc.Result, len(jobs))
 	var wg sync.WaitGroup
-	sem := make(chan struct{}, 3)
+	sem := make(chan struct{}, 6)
 	for i, j := range jobs {
 		wg.Add(1)
 		go func() {
